@@ -1219,7 +1219,19 @@ class Interp:
             kw = {}
             for k in n.keywords:
                 if k.arg is None:
-                    kw.update(self.ev(k.value, env))
+                    m = self.ev(k.value, env)
+                    if isinstance(m, DF):
+                        # f(**frame): the mapping protocol of a DataFrame -- column name -> that column, a Series carrying the frame's own index
+                        for c in [c for c in m.cols if not c.startswith("__")]:
+                            col = self.lib.load_subscript(self, m, c)
+                            if isinstance(col, Vec) and m.index == "range" and m.labels is None:
+                                col = Vec(col.v, fresh=True)          # built with the default 0..n-1 index: not the index of the table it is handed to
+                                col.exact = getattr(m, "exact", False)
+                            kw[c] = col
+                    elif isinstance(m, (dict, Row)):
+                        kw.update(m if isinstance(m, dict) else m._asdict())
+                    else:
+                        raise Undecided(f"** of {type(m).__name__}")
                 else:
                     kw[k.arg] = self.ev(k.value, env)
             if isinstance(n.func, ast.Attribute):
